@@ -80,6 +80,12 @@ def safe_execute(mod, scn, keep_log=False):
         res = mod.execute(scn, keep_log=keep_log) if keep_log else mod.execute(scn)
     except RunTimeout as e:
         site = lib_site_of_exception(e)
+        if not site and kernel.CURRENT is not None and kernel.CURRENT.current is not None:
+            # the alarm caught the scheduler waiting for a simulated thread: where is that thread?
+            try:
+                site = kernel._library_site(kernel.CURRENT.current)
+            except Exception:
+                site = ''
         if site:
             res = {'violations': [{'clause': 'hang', 'msg': 'no progress for %ds wall inside %s' % (RUN_WALL_LIMIT_S, site),
                                    'feat': {'site': site}}], 'stats': {}, 'nontrivial': True, 'digest': 'hang'}
@@ -91,7 +97,7 @@ def safe_execute(mod, scn, keep_log=False):
             res = {'violations': [], 'harness': 'run exceeded wall limit outside library code:\n' + traceback.format_exc(),
                    'stats': {}, 'nontrivial': False, 'digest': 'timeout'}
     except kernel.LibraryHang as e:
-        if 'self-deadlock' in e.site:
+        if 'self-deadlock' in e.site or 'blocked for ever' in e.site or 'full queue' in e.site:
             msg = '%s never returns: %s' % (e.thread, e.site)
         else:
             msg = 'thread %s made no progress for %.0f s of wall time inside %s (endless or super-linear loop)' % (e.thread, 20.0, e.site)
@@ -163,7 +169,19 @@ def _work(pid, tier, master, indices, use_cases):
            'digests': {}, 'wall': 0.0, 'states': set(), 'known': {}}
     findings = load_findings()
     t0 = time.time()
+    from . import kernel
     for i in indices:
+        # (armed per run: a chunk may contain several runs that each spend their wall limit)
+        faulthandler.cancel_dump_traceback_later()
+        faulthandler.dump_traceback_later(RUN_WALL_LIMIT_S * 3 + 120, exit=True)
+        if kernel.ZOMBIES or (out['n'] > 0 and time.time() - t0 > 45.0):
+            # (likewise when the chunk has already taken 45 s - runs that spend their wall limit: report what is there instead of
+            #  holding everything back until the whole chunk is through)
+            # a thread of an earlier run in this process could not be stopped and keeps burning CPU: what this process would measure from
+            # now on is distorted, the rest of the chunk is left out (counted as skipped)
+            out.setdefault('skipped', 0)
+            out['skipped'] += 1
+            continue
         try:
             scn = cases[i] if cases is not None else scenario_for(mod, master, tier, i)
         except Exception as e:
